@@ -368,8 +368,16 @@ GUARDED = [
     ('ParallelLoopTrans', 'validate'),
 ]
 
+
+PREDICATES = [
+    ('psyclone.domain.lfric.lfric_loop.LFRicLoop', 'independent_iterations', True),
+    ('psyclone.domain.common.psylayer.psyloop.PSyLoop', 'has_inc_arg', False),
+]
+
 def check(idx, run):
     run.explanation = __doc__
+    from sa.guards import check_predicates
+    check_predicates(idx, run, "C23.R5", PREDICATES)
     from sa.guards import check_guards
     check_guards(idx, run, "C23.R4", GUARDED)
     check_lfric_omp_guards(idx, run)
